@@ -1,7 +1,16 @@
 // Package vsync stands in for "sync" in the rewritten servitor packages.
 package vsync
 
-import "servitor/verifrt"
+import (
+	"sync"
+
+	"servitor/verifrt"
+)
 
 type Mutex = verifrt.Mutex
 type WaitGroup = verifrt.WaitGroup
+
+// Non-blocking containers need no scheduling points: only one controlled goroutine
+// runs at a time, and in pass-through mode they are the real thing.
+type Pool = sync.Pool
+type Map = sync.Map
